@@ -66,7 +66,7 @@ func loc(l wk.LL) osm.LatLng {
 // relation IDs live in separate OSM ID spaces, so the same number may name a
 // node, a way and a relation at once.
 type IDs struct {
-	Name                    string
+	Name                       string
 	NodeBase, WayBase, RelBase int64
 }
 
@@ -94,8 +94,8 @@ var pos = map[int]wk.LL{
 	5: {Lat: wk.G(0, 0).Lat + 500, Lng: wk.G(0, 0).Lng + 500},
 	6: {Lat: wk.G(0, 0).Lat + 500, Lng: wk.G(0, 0).Lng + 1500},
 	7: {Lat: wk.G(0, 0).Lat + 1500, Lng: wk.G(0, 0).Lng + 1000},
-	8:  wk.G(4, 0),
-	9:  wk.G(0, 4), 10: wk.G(0, 6), 11: wk.G(2, 6),
+	8: wk.G(4, 0),
+	9: wk.G(0, 4), 10: wk.G(0, 6), 11: wk.G(2, 6),
 }
 
 // Pos returns the location of menu node i.
@@ -185,7 +185,8 @@ func both(a, b Variant) Variant {
 }
 
 // Menu is the shared product of slots. Way numbers: A=1 (over the square),
-// B=2 (inner triangle or a street joining at n2), C=3 (second triangle).
+// B=2 (inner triangle or a street joining at n2), C=3 (second triangle, or a
+// street joining at n3).
 // Relation numbers: M=1 (multipolygon), P=2, Q=3 (plain relations; Q may
 // contain P, never the reverse, so relation membership is acyclic).
 //
@@ -223,17 +224,18 @@ func Menu() []Slot {
 			way("open-missing-node", 2, []int{2, MissingNode}, tags("highway", "path")),
 			way("open-inner", 2, []int{5, 6, 7}, nil),
 		}},
-		{Name: "wayC", Quick: 2, Variants: []Variant{
+		{Name: "wayC", Quick: 3, Variants: []Variant{
 			absent(),
 			way("closed-tagged", 3, []int{9, 10, 11, 9}, tags("landuse", "grass", "name", "green")),
+			way("open-joins-n3", 3, []int{3, 9}, tags("highway", "service")),
 			way("closed-untagged", 3, []int{9, 10, 11, 9}, nil),
 		}},
 		{Name: "relM", Quick: 3, Variants: []Variant{
 			absent(),
 			rel("mp-outerA-innerB", 1, []M{{'w', 1, "outer"}, {'w', 2, "inner"}}, tags("type", "multipolygon", "building", "yes", "name", "ring")),
-			rel("mp-outerA-innerB-outerC", 1, []M{{'w', 1, "outer"}, {'w', 2, "inner"}, {'w', 3, "outer"}}, tags("type", "multipolygon", "landuse", "park")),
+			rel("mp-outerA-innerB-norole-C", 1, []M{{'w', 1, "outer"}, {'w', 2, "inner"}, {'w', 3, ""}}, tags("type", "multipolygon", "landuse", "park")),
 			rel("mp-outerA", 1, []M{{'w', 1, "outer"}}, tags("type", "multipolygon", "leisure", "garden")),
-			rel("mp-emptyroles-A-C", 1, []M{{'w', 1, ""}, {'w', 3, ""}}, tags("type", "multipolygon")),
+			rel("mp-norole-A-outerC", 1, []M{{'w', 1, ""}, {'w', 3, "outer"}}, tags("type", "multipolygon")),
 			rel("mp-node-outerA-missing-inner", 1, []M{{'n', 1, "admin_centre"}, {'w', 1, "outer"}, {'w', MissingWay, "inner"}}, tags("type", "multipolygon", "natural", "wood")),
 		}},
 		{Name: "relP", Quick: 3, Variants: []Variant{
@@ -294,11 +296,15 @@ type Block struct {
 	Scheme  IDs
 	Radices []int
 	N       int64
+	// ViaPBF: the elements are serialised with osm.Writer and both worlds are
+	// built by reading the bytes back (the production decoding path).
+	ViaPBF bool
 }
 
 // Blocks lays the case space of a tier out: quick = the quick variants under
 // the overlap and disjoint schemes; thorough = every variant under the overlap
-// scheme plus the quick variants under the disjoint and large schemes.
+// scheme plus the quick variants under the disjoint scheme and, through an
+// in-memory PBF file, under the large scheme.
 func Blocks(slots []Slot, tier string) []Block {
 	mk := func(s IDs, t string) Block {
 		r := Radices(slots, t)
@@ -306,10 +312,12 @@ func Blocks(slots []Slot, tier string) []Block {
 		for _, x := range r {
 			n *= int64(x)
 		}
-		return Block{s, r, n}
+		return Block{Scheme: s, Radices: r, N: n}
 	}
 	if tier == "thorough" {
-		return []Block{mk(Schemes[0], "thorough"), mk(Schemes[1], "quick"), mk(Schemes[2], "quick")}
+		pbf := mk(Schemes[2], "quick")
+		pbf.ViaPBF = true
+		return []Block{mk(Schemes[0], "thorough"), mk(Schemes[1], "quick"), pbf}
 	}
 	return []Block{mk(Schemes[0], "quick"), mk(Schemes[1], "quick")}
 }
@@ -322,8 +330,8 @@ func Total(bs []Block) int64 {
 	return n
 }
 
-// Locate decodes case index i into its scheme and choice of variants.
-func Locate(bs []Block, i int64) (IDs, []int) {
+// Locate decodes case index i into its block and choice of variants.
+func Locate(bs []Block, i int64) (Block, []int) {
 	for _, b := range bs {
 		if i < b.N {
 			d := make([]int, len(b.Radices))
@@ -331,7 +339,7 @@ func Locate(bs []Block, i int64) (IDs, []int) {
 				d[j] = int(i % int64(r))
 				i /= int64(r)
 			}
-			return b.Scheme, d
+			return b, d
 		}
 		i -= b.N
 	}
@@ -341,7 +349,11 @@ func Locate(bs []Block, i int64) (IDs, []int) {
 func BlocksString(bs []Block) string {
 	parts := make([]string, len(bs))
 	for i, b := range bs {
-		parts[i] = fmt.Sprintf("%s IDs x %v variants per slot = %d", b.Scheme.Name, b.Radices, b.N)
+		via := ""
+		if b.ViaPBF {
+			via = " via osm.Writer/ReadPBF"
+		}
+		parts[i] = fmt.Sprintf("%s IDs%s x %v variants per slot = %d", b.Scheme.Name, via, b.Radices, b.N)
 	}
 	return strings.Join(parts, "; ")
 }
